@@ -10,6 +10,7 @@ package main
 
 import (
 	"fmt"
+	"net"
 	"net/netip"
 	"os"
 	"path/filepath"
@@ -20,6 +21,7 @@ import (
 	"strings"
 	"sync"
 	"sync/atomic"
+	"syscall"
 
 	"github.com/scionproto/scion/pkg/addr"
 	"github.com/scionproto/scion/pkg/segment/iface"
@@ -1192,74 +1194,154 @@ func checkSockets(e *sink, rt *rtr, rcv, snd, batch int, how string, cs []call) 
 
 // realSockets opens real UDP sockets on the loopback interface through conn.New (what the default
 // ConnOpener does) with the given conn.Config and reads SO_RCVBUF / SO_SNDBUF back (hook
-// conn.VerifCfgSockBufs). Sizes are kept inside [8 KiB, min(rmem_max, wmem_max)] where the kernel
-// stores exactly twice the requested value; 0 must leave the default. Skipped when the sandbox
-// does not allow sockets.
+// conn.VerifCfgSockBufs). The kernel stores twice the requested value, clamps an unprivileged
+// request at net.core.{r,w}mem_max, and a privileged *FORCE request is not clamped. What C17 demands
+// of each option is that it is one the kernel could have produced from ITS OWN configured size:
+//
+//	size 0         -> the system default, untouched;
+//	size s != 0    -> 2*min(s, max) (plain request) or 2*s (forced request),
+//
+// and therefore never a value determined by the other direction's size. Sizes stay >= 8 KiB (above
+// the kernel's minimum). Half of the cases lie below the limits, the other half puts one or both
+// sizes above its limit, always with a different size for the other direction.
+// Skipped (recorded, no alarm) when the sandbox does not allow sockets.
 func realSockets(e *vlib.Env, r *vlib.Rand, n int) {
 	lo := netip.MustParseAddrPort("127.0.0.1:0")
-	open := func(c conn.Config) (int, int, error) {
-		cn, err := conn.New(lo, netip.AddrPort{}, &c)
+	rem := netip.MustParseAddrPort("127.0.0.1:30041")
+	open := func(c conn.Config, connected bool) (int, int, error) {
+		var cn conn.Conn
+		var err error
+		if connected {
+			cn, err = conn.New(lo, rem, &c)
+		} else {
+			cn, err = conn.New(lo, netip.AddrPort{}, &c)
+		}
 		if err != nil {
 			return 0, 0, err
 		}
 		defer cn.Close()
 		return conn.VerifCfgSockBufs(cn)
 	}
-	dr, ds, err := open(conn.Config{})
+	dr, ds, err := open(conn.Config{}, false)
 	if err != nil {
 		e.Extra["real_sockets"] = "skipped: " + err.Error()
 		return
 	}
-	limit := 1 << 20
-	for _, f := range []string{"/proc/sys/net/core/rmem_max", "/proc/sys/net/core/wmem_max"} {
+	readMax := func(f string) (int, bool) {
 		b, err := os.ReadFile(f)
 		if err != nil {
-			e.Extra["real_sockets"] = "skipped: " + err.Error()
-			return
+			return 0, false
 		}
-		if v, err := strconv.Atoi(strings.TrimSpace(string(b))); err == nil && v < limit {
-			limit = v
-		}
+		v, err := strconv.Atoi(strings.TrimSpace(string(b)))
+		return v, err == nil
 	}
-	if limit < 16384 {
-		e.Extra["real_sockets"] = "skipped: rmem_max/wmem_max too small"
+	rmax, ok1 := readMax("/proc/sys/net/core/rmem_max")
+	wmax, ok2 := readMax("/proc/sys/net/core/wmem_max")
+	if !ok1 || !ok2 || rmax < 16384 || wmax < 16384 || rmax > 1<<28 || wmax > 1<<28 {
+		e.Extra["real_sockets"] = fmt.Sprintf("skipped: rmem_max/wmem_max unreadable or out of the usable window (%d, %d)", rmax, wmax)
 		return
 	}
-	e.Extra["real_sockets"] = fmt.Sprintf("default rcv=%d snd=%d limit=%d", dr, ds, limit)
-	pick := func() int {
-		if r.Chance(20) {
-			return 0
+	// may this process force buffer sizes (CAP_NET_ADMIN)? Only recorded: without the privilege a
+	// forced request fails and the plain, clamped value stays - which the predicate accepts too.
+	priv := "no"
+	if uc, err := net.ListenUDP("udp", &net.UDPAddr{IP: net.IPv4(127, 0, 0, 1)}); err == nil {
+		if rc, err := uc.SyscallConn(); err == nil {
+			_ = rc.Control(func(fd uintptr) {
+				if syscall.SetsockoptInt(int(fd), syscall.SOL_SOCKET, syscall.SO_SNDBUFFORCE, 65536) == nil {
+					priv = "yes"
+				}
+			})
 		}
-		return 8192 + r.Intn(limit-8192+1)
+		uc.Close()
 	}
-	show := func(req, got, dflt int) string {
-		switch {
-		case req == 0 && got == dflt:
-			return "-"
-		case req != 0 && got == 2*req:
-			return strconv.Itoa(req)
+	e.Extra["real_sockets"] = fmt.Sprintf("default rcv=%d snd=%d rmem_max=%d wmem_max=%d may_force=%s", dr, ds, rmax, wmax, priv)
+	below := func(max int) int { return 8192 + r.Intn(max-8192+1) }
+	above := func(max int) int { return max + 1 + r.Intn(3*max) }
+	// producible: could the kernel hold `got` for a socket whose own configured size is req?
+	producible := func(req, got, dflt, max int) bool {
+		if req == 0 {
+			return got == dflt
 		}
-		return fmt.Sprintf("?%d", got)
+		lim := req
+		if lim > max {
+			lim = max
+		}
+		return got == 2*lim || got == 2*req
+	}
+	show := func(req, got, dflt, max int) string {
+		switch {
+		case !producible(req, got, dflt, max):
+			return fmt.Sprintf("?%d", got)
+		case req == 0:
+			return "-"
+		}
+		return strconv.Itoa(req)
 	}
 	for i := 0; i < n; i++ {
-		rcv, snd := pick(), pick()
-		gr, gs, err := open(conn.Config{ReceiveBufferSize: rcv, SendBufferSize: snd})
+		var rcv, snd int
+		class := "within-limits"
+		switch i % 8 {
+		case 0, 1, 2, 3: // both within the limits (or 0)
+			rcv, snd = below(rmax), below(wmax)
+			if r.Chance(20) {
+				rcv = 0
+			}
+			if r.Chance(20) {
+				snd = 0
+			}
+		case 4: // receive above its limit, send an unrelated size within its limit
+			rcv, snd, class = above(rmax), below(wmax), "receive-above-rmem_max"
+		case 5: // receive above its limit, send left at the default
+			rcv, snd, class = above(rmax), 0, "receive-above-rmem_max"
+		case 6: // send above its limit, receive unrelated / default
+			rcv, snd, class = below(rmax), above(wmax), "send-above-wmem_max"
+			if r.Bool() {
+				rcv = 0
+			}
+		default: // both above, different
+			rcv, snd, class = above(rmax), above(wmax), "both-above-limits"
+		}
+		// keep the two directions (and the defaults) distinguishable
+		for (rcv != 0 && snd != 0 && (rcv == snd || rcv == 2*snd || snd == 2*rcv)) ||
+			(rcv != 0 && (2*rcv == dr || 2*rcv == ds)) || (snd != 0 && (2*snd == ds || 2*snd == dr)) {
+			if snd != 0 {
+				snd += 4096
+			}
+			if rcv != 0 {
+				rcv += 1024
+			}
+		}
+		connected := r.Bool()
+		gr, gs, err := open(conn.Config{ReceiveBufferSize: rcv, SendBufferSize: snd}, connected)
 		ans := "err"
 		if err == nil {
-			ans = show(rcv, gr, dr) + " " + show(snd, gs, ds)
+			ans = show(rcv, gr, dr, rmax) + " " + show(snd, gs, ds, wmax)
 		}
-		tag := "so/set"
-		if rcv == snd {
-			tag = "~so/equal"
-		}
-		e.Op(fmt.Sprintf("so %d %d", rcv, snd), ans, tag)
+		e.Op(fmt.Sprintf("so %d %d", rcv, snd), ans, "so/"+class)
 		if err != nil {
 			continue
 		}
-		if (rcv != 0 && gr != 2*rcv) || (snd != 0 && gs != 2*snd) {
-			e.Violate("C17/socket-option", fmt.Sprintf("conn.Config{ReceiveBufferSize:%d, SendBufferSize:%d}: "+
-				"kernel holds SO_RCVBUF=%d SO_SNDBUF=%d (twice the set value; defaults %d/%d)", rcv, snd, gr, gs, dr, ds),
-				map[string]any{"receive_buffer_size": rcv, "send_buffer_size": snd, "so_rcvbuf": gr, "so_sndbuf": gs})
+		kind := map[bool]string{true: "connected (external/sibling)", false: "listening (internal)"}[connected]
+		rep := map[string]any{"receive_buffer_size": rcv, "send_buffer_size": snd, "so_rcvbuf": gr, "so_sndbuf": gs,
+			"rmem_max": rmax, "wmem_max": wmax, "default_so_rcvbuf": dr, "default_so_sndbuf": ds, "socket": kind,
+			"may_force": priv}
+		if !producible(snd, gs, ds, wmax) {
+			what := fmt.Sprintf("%s socket opened with conn.Config{ReceiveBufferSize:%d, SendBufferSize:%d}: kernel holds "+
+				"SO_SNDBUF=%d, which the configured SEND size cannot produce (2*min(size, wmem_max=%d), 2*size, or the "+
+				"default %d for 0)", kind, rcv, snd, gs, wmax, ds)
+			if gs == 2*rcv {
+				what += " - it is twice the configured RECEIVE size"
+			}
+			e.Violate("C17/socket-option/send/"+class, what, rep)
+		}
+		if !producible(rcv, gr, dr, rmax) {
+			what := fmt.Sprintf("%s socket opened with conn.Config{ReceiveBufferSize:%d, SendBufferSize:%d}: kernel holds "+
+				"SO_RCVBUF=%d, which the configured RECEIVE size cannot produce (2*min(size, rmem_max=%d), 2*size, or the "+
+				"default %d for 0)", kind, rcv, snd, gr, rmax, dr)
+			if gr == 2*snd {
+				what += " - it is twice the configured SEND size"
+			}
+			e.Violate("C17/socket-option/receive/"+class, what, rep)
 		}
 	}
 }
